@@ -481,6 +481,10 @@ class StateMachine:
         # Variable to store time in
         self.__start = 0
 
+        # Number of state functions that are being run at the moment (a state
+        # function can run another one via next_state_now)
+        self.__running = 0
+
     @property
     def is_executing(self) -> bool:
         """:returns: True if the state machine is executing states"""
@@ -546,9 +550,16 @@ class StateMachine:
 
         .. note:: This should only be called from one of the state functions
         """
+        # the nested iteration must not use up the engage request of the
+        # iteration in progress, a state function may do this more than once
+        requested = self.__running > 0 and self.__should_engage
+
         self.next_state(state)
         # TODO: may want to do this differently?
         self.execute()
+
+        if requested and self.__engaged:
+            self.__should_engage = True
 
     def done(self) -> None:
         """Call this function to end execution of the state machine.
@@ -653,7 +664,11 @@ class StateMachine:
                     self.logger.info("%.3fs: Entering state: %s", tm, state.name)
 
             # execute the state function, passing it the arguments
-            state.run(self, tm, tm - state.start_time, initial_call)
+            self.__running += 1
+            try:
+                state.run(self, tm, tm - state.start_time, initial_call)
+            finally:
+                self.__running -= 1
         elif not done_called:
             # or clear the state
             self.done()
